@@ -448,12 +448,26 @@ func (x *ctx) evalSpecFn(st *state, fn *ssa.Function, bind []val, args []val) va
 		return and(cs...)
 	}
 	// definitional facts created while evaluating the specification are kept (guarded by their branch)
+	// (guarded by the path condition at the point where each was created; facts of a shared prefix are kept once)
+	emitted := map[string]bool{}
 	for _, o := range live {
-		bc := branch(o)
+		var cs []string
+		guard := "true"
 		for _, f := range o.st.pc[base:] {
-			if f.def {
-				st.define(implies(bc, f.t))
+			if !f.def {
+				cs = append(cs, f.t)
+				guard = ""
+				continue
 			}
+			if guard == "" {
+				guard = and(cs...)
+			}
+			key := guard + "|" + f.t
+			if emitted[key] {
+				continue
+			}
+			emitted[key] = true
+			st.define(implies(guard, f.t))
 		}
 	}
 	merged := live[len(live)-1].ret
@@ -879,6 +893,11 @@ func (x *ctx) contractCall(st *state, fr *frame, con *Contract, callee *ssa.Func
 	for name, spec := range con.Cbs {
 		if strings.HasPrefix(name, "result:") {
 			ret.iter = &iterRef{con: con, spec: spec, args: args}
+		}
+	}
+	if x.spec == 0 && len(con.Cbs) > 0 {
+		if evalI := x.cbInvariant(con); evalI != nil {
+			st.assume(evalI(st)) // established by the callback-invariant obligations of this call site
 		}
 	}
 	if con.Flags["counted"] && x.spec == 0 {
@@ -1570,7 +1589,7 @@ func (x *ctx) localByName(st *state, fr *frame, at *ssa.BasicBlock, name string)
 // havocLoop havocs the heap keys and cells written inside the natural loop of header b.
 func (x *ctx) havocLoop(st *state, fr *frame, b *ssa.BasicBlock) {
 	blocks := loopBlocks(b)
-	ms := &modSet{keys: map[string]bool{}, cells: map[int]bool{}, rows: map[string][]ssa.Value{}, inLoop: blocks}
+	ms := &modSet{st: st, keys: map[string]bool{}, cells: map[int]bool{}, rows: map[string][]ssa.Value{}, inLoop: blocks}
 	for blk := range blocks {
 		for _, in := range blk.Instrs {
 			x.instrMods(fr, in, ms, 0)
@@ -1689,6 +1708,8 @@ func (x *ctx) havocLoop(st *state, fr *frame, b *ssa.BasicBlock) {
 }
 
 type modSet struct {
+	skipCb bool  // own footprint: the effects of callbacks under contract are left out
+	st    *state // state at the loop head (resolves function values held in captured variables)
 	keys  map[string]bool
 	cells map[int]bool
 	all   bool
@@ -1942,7 +1963,9 @@ func (x *ctx) callMods(fr *frame, c *ssa.CallCommon, ms *modSet, depth int) {
 	case *ssa.Parameter:
 		if fr.con != nil {
 			if cb := fr.con.Cbs[v.Name()]; cb != nil {
-				x.contractMods(fr.con, cb.Mods, ms)
+				if !ms.skipCb {
+					x.contractMods(fr.con, cb.Mods, ms)
+				}
 				return
 			}
 		}
@@ -1951,6 +1974,42 @@ func (x *ctx) callMods(fr *frame, c *ssa.CallCommon, ms *modSet, depth int) {
 	if callee == nil {
 		if mc, ok := c.Value.(*ssa.MakeClosure); ok {
 			callee = mc.Fn.(*ssa.Function)
+		}
+	}
+	if callee == nil {
+		// a function value held in a register or a captured variable: a callback under contract, or a known closure
+		if fv, ok := x.fnValOf(fr, ms.st, c.Value); ok {
+			if fv.cb != nil {
+				if !ms.skipCb {
+					x.contractMods(fv.cb.con, fv.cb.spec.Mods, ms)
+				}
+				return
+			}
+			if fv.fn != nil {
+				callee = fv.fn
+				if callee.Synthetic != "" && strings.HasPrefix(callee.Synthetic, "bound method wrapper") {
+					if fo, ok := callee.Object().(*types.Func); ok {
+						m := x.w.prog.FuncValue(fo)
+						if m == nil {
+							m = x.w.prog.FuncValue(fo.Origin())
+						}
+						if m != nil {
+							callee = m
+						}
+					}
+				}
+			}
+		} else if p := x.paramOf(c.Value); p != nil && x.con != nil && x.con.Cbs[p.Name()] != nil {
+			if !ms.skipCb {
+				x.contractMods(x.con, x.con.Cbs[p.Name()].Mods, ms)
+			}
+			return
+		} else if p != nil || userCallbackValue(c.Value) {
+			return // a function-typed parameter without a callback contract: user callback (A-callbacks)
+		} else {
+			debugf("callMods: unresolved function value %s in %s: everything havocked", c.Value, fr.fn)
+			ms.all = true
+			return
 		}
 	}
 	if callee == nil {
@@ -2012,6 +2071,10 @@ func (x *ctx) siteAssertions(st *state, fr *frame, b *ssa.BasicBlock, in *ssa.Ca
 	if len(cls) == 0 {
 		return
 	}
+	if x.siteHit == nil {
+		x.siteHit = map[string]bool{}
+	}
+	x.siteHit[name] = true
 	penv := func(n string, t types.Type) (val, bool) { v, ok := x.params[n]; return v, ok }
 	lenv := func(n string, t types.Type) (val, bool) {
 		if v, ok := x.localByName(st, fr, b, n); ok {
@@ -2127,6 +2190,21 @@ func (x *ctx) callbackConformance(st *state, fr *frame, con *Contract, callee *s
 		}
 		S := st.clone()
 		x.applyModifies(S, st, con, con.Mods, env)
+		// callback invariant of the caller (site NAME: callback-invariant I): I holds at the call, is kept by the
+		// callee's own writes (own-modifies) and by the function value passed; by induction over the callee's steps it
+		// holds whenever the callback is invoked, and when the callee returns.
+		evalI := x.cbInvariant(con)
+		if evalI != nil {
+			x.oblige(st, "callback-invariant-entry", "", shortTarget(con.Target)+":"+name, evalI(st), "the callback invariant must hold when the callee is entered")
+			S.assume(evalI(S))
+			own := con.Mods
+			if con.HasOwn {
+				own = con.OwnMods
+			}
+			S2 := S.clone()
+			x.applyModifies(S2, st, con, own, env)
+			x.oblige(S2, "callback-invariant-stable", "", shortTarget(con.Target)+":"+name, evalI(S2), "the callback invariant must survive the callee's own writes (own-modifies)")
+		}
 		var cbArgs []val
 		for i := 0; i < sig.Params().Len(); i++ {
 			p := sig.Params().At(i)
@@ -2235,7 +2313,337 @@ func (x *ctx) callbackConformance(st *state, fr *frame, con *Contract, callee *s
 				})
 				x.oblige(o.st, "callback-ensures", p.cl.Tag(), site, r.t.s, "the function value passed must establish the ensures of the callee's callback contract")
 			}
+			if evalI != nil {
+				x.oblige(o.st, "callback-invariant-kept", "", site, evalI(o.st), "the function value passed must keep the callback invariant")
+			}
 		}
 		x.siteCtx, x.allocFrom = saveSite, saveFrom
 	}
+}
+
+
+// fnValOf resolves a function-typed SSA value without executing: a bound register, or a load of a captured / local
+// variable whose cell is known.
+func (x *ctx) fnValOf(fr *frame, st *state, v ssa.Value) (val, bool) {
+	if r, ok := fr.regs[v]; ok && (r.cb != nil || r.fn != nil) {
+		return r, true
+	}
+	if u, ok := v.(*ssa.UnOp); ok && u.Op == token.MUL && st != nil {
+		if p, ok := fr.regs[u.X]; ok && p.ptr != nil && p.ptr.cell > 0 {
+			if cv, ok := st.cells[p.ptr.cell]; ok && (cv.cb != nil || cv.fn != nil) {
+				return cv, true
+			}
+		}
+	}
+	return val{}, false
+}
+
+// userCallbackValue: function values that come from the user (struct fields such as c.onDeletion, interface method
+// values, function-typed parameters without a callback contract): A-callbacks applies, the heap is unchanged.
+func userCallbackValue(v ssa.Value) bool {
+	switch u := v.(type) {
+	case *ssa.Parameter:
+		return true
+	case *ssa.UnOp:
+		if u.Op == token.MUL {
+			switch a := u.X.(type) {
+			case *ssa.FieldAddr:
+				return true
+			case *ssa.FreeVar, *ssa.Alloc:
+				_ = a
+				return false
+			}
+		}
+	case *ssa.MakeClosure:
+		return false
+	case *ssa.Field:
+		return true
+	}
+	return false
+}
+
+
+// cbInvariant returns an evaluator of the conjunction of the `site NAME: callback-invariant` clauses that the function
+// under verification declares for calls of con's function (nil when there are none or no call site is active).
+func (x *ctx) cbInvariant(con *Contract) func(s *state) string {
+	if x.con == nil || x.siteFr == nil || con.Obj == nil {
+		return nil
+	}
+	cls := x.con.CbInvs[con.Obj.Name()]
+	if len(cls) == 0 {
+		return nil
+	}
+	fr, b := x.siteFr, x.siteBlk
+	if x.cbInvHit == nil {
+		x.cbInvHit = map[string]bool{}
+	}
+	x.cbInvHit[con.Obj.Name()] = true
+	penv := func(n string, t types.Type) (val, bool) { v, ok := x.params[n]; return v, ok }
+	// locals are resolved once, in the state of the call site
+	return func(s *state) string {
+		lenv := func(n string, t types.Type) (val, bool) {
+			if v, ok := x.localByName(s, fr, b, n); ok {
+				return v, true
+			}
+			for i := len(x.frames) - 1; i >= 0; i-- {
+				of := x.frames[i]
+				if of.fn != x.fn && of.fn.Parent() == nil {
+					continue
+				}
+				if v, ok := x.localAnywhere(s, of, n); ok {
+					return v, true
+				}
+			}
+			return penv(n, t)
+		}
+		var parts []string
+		for _, cl := range cls {
+			pc := x.pre.clone()
+			np := len(pc.pc)
+			l1 := x.clauseL1(pc, x.con, cl, penv)
+			for id, v := range pc.cells {
+				if _, ok := s.cells[id]; !ok {
+					s.cells[id] = v
+				}
+			}
+			for _, f := range pc.pc[np:] {
+				if f.def {
+					s.define(f.t)
+				}
+			}
+			parts = append(parts, x.applyClosure(s, l1, cl.P3, lenv).t.s)
+		}
+		return and(parts...)
+	}
+}
+
+// ownFootprint checks `own-modifies`: every location that the function itself may write (the effects of its
+// callbacks under contract left out) is listed. The write set is the static over-approximation that loop havoc uses.
+func (x *ctx) ownFootprint(st *state, fr *frame, con *Contract, penv envFn) {
+	ms := &modSet{skipCb: true, st: st, keys: map[string]bool{}, cells: map[int]bool{}, rows: map[string][]ssa.Value{}, inLoop: map[*ssa.BasicBlock]bool{}}
+	var scan func(fn *ssa.Function, nfr *frame)
+	scan = func(fn *ssa.Function, nfr *frame) {
+		for _, blk := range fn.Blocks {
+			for _, in := range blk.Instrs {
+				x.instrMods(nfr, in, ms, 0)
+			}
+		}
+		for _, af := range fn.AnonFuncs {
+			scan(af, &frame{fn: af, regs: map[ssa.Value]val{}, con: nil})
+		}
+	}
+	scan(x.fn, fr)
+	whole := map[string]bool{}
+	rows := map[string][]string{}
+	allowAll := false
+	for _, mi := range con.OwnMods {
+		switch mi.Kind {
+		case "whole":
+			if mi.Type == "*" {
+				allowAll = true
+			} else if mi.Field == "*" {
+				whole[mi.Type+".*"] = true
+			} else if mi.Type == "node" {
+				whole["G:"+mi.Field] = true
+			} else {
+				whole[mi.Type+"."+mi.Field] = true
+			}
+		case "ghostall":
+			whole[x.ghostKey(mi.Ghost)] = true
+		case "ghost":
+			whole[x.ghostKey(mi.Ghost)] = true // (argument-precise ghost items are treated as the whole ghost here)
+		case "wholekey":
+			whole[mi.Field] = true
+		case "mapof":
+			f := x.synth(con, mi.ArgFns[0])
+			v := x.evalSpecFn(x.pre, f, nil, x.bindArgs(f, nil, penv))
+			for _, k := range []string{"G:mapN"} {
+				rows[k] = append(rows[k], v.t.s)
+			}
+			rows["G:mapP_*"] = append(rows["G:mapP_*"], v.t.s)
+			rows["G:mapV_*"] = append(rows["G:mapV_*"], v.t.s)
+		case "field":
+			f := x.synth(con, mi.ArgFns[0])
+			v := x.evalSpecFn(x.pre, f, nil, x.bindArgs(f, nil, penv))
+			bt := x.modBaseType(f)
+			if x.isNodeIface(bt) {
+				rows["G:"+mi.Field] = append(rows["G:"+mi.Field], v.t.s)
+			} else {
+				sub := &modSet{keys: map[string]bool{}, cells: map[int]bool{}}
+				if stT, ok := deref(bt).Underlying().(*types.Struct); ok {
+					for i := 0; i < stT.NumFields(); i++ {
+						if stT.Field(i).Name() == mi.Field {
+							x.addLeafKeys(structName(deref(bt))+"."+mi.Field, stT.Field(i).Type(), sub)
+						}
+					}
+				}
+				for k := range sub.keys {
+					rows[k] = append(rows[k], v.t.s)
+				}
+			}
+		case "elems", "elem":
+			f := x.synth(con, mi.ArgFns[0])
+			bt := x.modBaseType(f)
+			if sl, ok := bt.Underlying().(*types.Slice); ok {
+				whole[x.elemKey(sl.Elem())] = true
+			}
+		}
+	}
+	if allowAll {
+		return
+	}
+	covered := func(k string) bool {
+		if whole[k] || frameExempt(k) {
+			return true
+		}
+		if j := strings.Index(k, "."); j > 0 && whole[k[:j]+".*"] {
+			return true
+		}
+		return strings.HasPrefix(k, "G:") && whole["node.*"]
+	}
+	bad := map[string]string{}
+	if ms.all {
+		bad["*"] = "a callee in the body modifies everything"
+	}
+	for k := range ms.keys {
+		k = x.akey(k)
+		if !covered(k) {
+			bad[k] = "written (at a location that is not a parameter's own row)"
+		}
+	}
+	for _, lz := range ms.lazy {
+		if k := x.akey(lz.key); !covered(k) {
+			bad[k] = "written through a loaded base"
+		}
+	}
+	for k, bases := range ms.rows {
+		k = x.akey(k)
+		if covered(k) {
+			continue
+		}
+		allowed := append([]string(nil), rows[k]...)
+		if strings.HasPrefix(k, "G:mapP_") {
+			allowed = append(allowed, rows["G:mapP_*"]...)
+		}
+		if strings.HasPrefix(k, "G:mapV_") {
+			allowed = append(allowed, rows["G:mapV_*"]...)
+		}
+		for _, bv := range bases {
+			ok := false
+			if p := x.paramOf(bv); p != nil {
+				if pv, have := fr.regs[p]; have && pv.t.s != "" {
+					for _, a := range allowed {
+						if a == pv.t.s {
+							ok = true
+						}
+					}
+				}
+			}
+			if !ok {
+				bad[k] = "row of " + bv.Name() + " written"
+			}
+		}
+	}
+	var ks []string
+	for k := range bad {
+		ks = append(ks, k)
+	}
+	sort.Strings(ks)
+	for _, k := range ks {
+		x.oblige(st, "own-frame", k, "", "false", "own-modifies does not list this location: "+bad[k])
+	}
+	if len(ks) == 0 {
+		x.oblige(st, "own-frame", "", "", "true", "static write set of the function (callbacks left out) is covered by own-modifies")
+	}
+}
+
+
+// paramOf resolves an SSA value to the parameter of the verified function that it certainly denotes: the parameter
+// itself, or a load of the variable it was spilled to (a captured parameter) provided that variable is assigned once.
+func (x *ctx) paramOf(v ssa.Value) *ssa.Parameter {
+	switch u := v.(type) {
+	case *ssa.Parameter:
+		if u.Parent() == x.fn {
+			return u
+		}
+	case *ssa.UnOp:
+		if u.Op != token.MUL {
+			return nil
+		}
+		return x.spilledParam(u.X)
+	}
+	return nil
+}
+
+// spilledParam: addr is the address of a variable (an Alloc of the verified function, or a free variable of one of its
+// closures bound to such an Alloc) whose only assignment stores a parameter of the verified function.
+func (x *ctx) spilledParam(addr ssa.Value) *ssa.Parameter {
+	switch a := addr.(type) {
+	case *ssa.Alloc:
+		if a.Parent() != x.fn || a.Referrers() == nil {
+			return nil
+		}
+		var p *ssa.Parameter
+		stores := 0
+		for _, r := range *a.Referrers() {
+			if st, ok := r.(*ssa.Store); ok && st.Addr == a {
+				stores++
+				p, _ = st.Val.(*ssa.Parameter)
+			}
+		}
+		if stores == 1 && p != nil && p.Parent() == x.fn && !x.storedInClosures(a) {
+			return p
+		}
+	case *ssa.FreeVar:
+		fn := a.Parent()
+		par := fn.Parent()
+		if par == nil {
+			return nil
+		}
+		idx := -1
+		for i, fv := range fn.FreeVars {
+			if fv == a {
+				idx = i
+			}
+		}
+		for _, blk := range par.Blocks {
+			for _, in := range blk.Instrs {
+				if mc, ok := in.(*ssa.MakeClosure); ok && mc.Fn == fn && idx >= 0 && idx < len(mc.Bindings) {
+					return x.spilledParam(mc.Bindings[idx])
+				}
+			}
+		}
+	}
+	return nil
+}
+
+// storedInClosures: some closure (transitively) of the verified function assigns the variable behind alloc.
+func (x *ctx) storedInClosures(a *ssa.Alloc) bool {
+	var visit func(fn *ssa.Function, addr ssa.Value) bool
+	visit = func(fn *ssa.Function, addr ssa.Value) bool {
+		for _, blk := range fn.Blocks {
+			for _, in := range blk.Instrs {
+				if mc, ok := in.(*ssa.MakeClosure); ok {
+					cf := mc.Fn.(*ssa.Function)
+					for i, bnd := range mc.Bindings {
+						if bnd == addr && i < len(cf.FreeVars) {
+							fv := cf.FreeVars[i]
+							if fv.Referrers() != nil {
+								for _, r := range *fv.Referrers() {
+									if st, ok := r.(*ssa.Store); ok && st.Addr == fv {
+										return true
+									}
+								}
+							}
+							if visit(cf, fv) {
+								return true
+							}
+						}
+					}
+				}
+			}
+		}
+		return false
+	}
+	return visit(x.fn, a)
 }
